@@ -1,9 +1,10 @@
 import Driver.OpsCore
 import Driver.OpsTEI
 import Driver.OpsFPA
+import Driver.OpsMCTS
 namespace Driver
 
-def handlers : List Handler := [handleCore, handleTEI, handleFPA]
+def handlers : List Handler := [handleCore, handleTEI, handleFPA, handleMCTS]
 
 def step (st : St) (line : String) : St × String :=
   match (line.trimAscii.toString.splitOn " ").filter (· ≠ "") with
